@@ -678,13 +678,17 @@ def _c14(vers, blinded_all):
                     out.append(g)
     return out
 
+# unsigned attester data with attestation_data / attestation_duty null: the decoder's panic must come back as an error
+# (the recovering deferred closure of UnsignedDataSetFromProto is modelled: model_recover=1)
+_C14U = [{"harness": "VerifC14Unsigned", "params": {"datanull": [0, 1], "dutynull": [0, 1], "model_recover": 1}, "redirects": _C14R}]
+
 CHECKS["C14"] = {
     "pkg": "./core",
     "parallel": 8,
-    "quick": _c14([0, 2, 4, 5, 6], False),
-    "thorough": [dict(g, cross=True) for g in _c14([0, 1, 2, 3, 4, 5, 6], True)],
+    "quick": _c14([0, 2, 4, 5, 6], False) + _C14U,
+    "thorough": [dict(g, cross=True) for g in _c14([0, 1, 2, 3, 4, 5, 6], True) + _C14U],
     "bounds": {
-        "quick": "the four versioned signed types with a hand-written UnmarshalJSON (VersionedSignedProposal incl. blinded, VersionedAttestation, VersionedSignedAggregateAndProof, VersionedSignedValidatorRegistration); versions phase0, bellatrix, deneb, electra, fulu; decoder outcome: malformed (error) at the wrapper or at the object, or an object whose scalars are arbitrary and in which at most one pointer on the chain object / first pointer field / ... (depth <= 3) is nil (JSON null); then Signature, MessageRoot, DomainName, Epoch, SetSignature, Clone, json.Marshal",
+        "quick": "the four versioned signed types with a hand-written UnmarshalJSON (VersionedSignedProposal incl. blinded, VersionedAttestation, VersionedSignedAggregateAndProof, VersionedSignedValidatorRegistration); versions phase0, bellatrix, deneb, electra, fulu; decoder outcome: malformed (error) at the wrapper or at the object, or an object whose scalars are arbitrary and in which at most one pointer on the chain object / first pointer field / ... (depth <= 3) is nil (JSON null); then Signature, MessageRoot, DomainName, Epoch, SetSignature, Clone, json.Marshal; plus unsigned attester data (core.AttestationData) whose attestation_data / attestation_duty is null: UnsignedDataSetFromProto returns an error (its deferred recover is modelled) and nothing panics",
         "thorough": "all seven versions, blinded flag for every version, every VC decided by z3 and cvc5",
     },
     "outside": "everything else C14 states: losslessness and determinism of the SSZ/JSON/protobuf encodings (reflection-driven libraries); the SSZ decoding path (generated code allocates every pointer); types whose UnmarshalJSON is go-eth2-client's own (their null handling is the library's: where the harness relies on it the real decoder is run on the corresponding JSON text in every run and must reject it); more than one null per object; nulls inside lists; unsigned data (decoded values are cloned through SSZ before use, which fails cleanly)",
